@@ -465,4 +465,87 @@ theorem stale_cache_counterexample :
     (runInc true cexInc ⟨[], none⟩).groups.length = 2 :=
   stale_cache_counterexample'
 
+/-! ### Phase 5: `sorted(XY.items())` inside the model (the x order is no longer an input) -/
+
+/-- `raw_contrast` *with* its final `sorted(XY.items())` (CPython's `list.sort` over the labels as Python values, mixed-type
+x columns included) over the code's values = over directly computed averages, errors (`TypeError`) included -/
+theorem raw_contrast_py_eq_spec (r : Result) (sels1 sels2 : List (List (Tbl × Option Nat × Int))) (pc : List Col)
+    (x : XSpec) (span : Option Nat) (labs : List ((Key × Key) × PyVal)) :
+    rawContrastPy r sels1 sels2 pc x span labs = rawContrastPyS r sels1 sels2 pc x span labs :=
+  rawContrastPy_eq_spec r sels1 sels2 pc x span labs
+
+/-- the same for everything `plot_contrast` computes before drawing, over the table that `raw_contrast` sorted itself -/
+theorem plot_contrast_py_eq_spec (r : Result) (sels1 sels2 : List (List (Tbl × Option Nat × Int))) (pc : List Col)
+    (x : XSpec) (span : Option Nat) (labs : List ((Key × Key) × PyVal)) (mode : CMode) (ci : Option CiFn)
+    (errevery : Option Nat) (kind : XKind) :
+    plotContrastPy r sels1 sels2 pc x span labs mode ci errevery kind =
+    plotContrastPyS r sels1 sels2 pc x span labs mode ci errevery kind :=
+  plotContrastPy_eq_spec r sels1 sels2 pc x span labs mode ci errevery kind
+
+/-- `TypeError` iff: when the pairing yields the entries `raw` (≥ 2 of them, parameter x), `raw_contrast` returns a table
+**iff** all x labels are Python values of one class other than `None` (all numbers, all strings, all frozensets) — for
+every Result, selection, pairing and assignment of Python values to the labels; and whatever table it returns consists of
+entries formed by the pairing, x label and pairs untouched (`x='index'` included) -/
+theorem raw_contrast_py_sorted (r : Result) (sels1 sels2 : List (List (Tbl × Option Nat × Int))) (pc : List Col)
+    (x : XSpec) (span : Option Nat) (labs : List ((Key × Key) × PyVal)) (raw : List ((Key × Key) × List (Rat × Rat)))
+    (hraw : rawContrast r sels1 sels2 pc x span true = .ok raw) :
+    (x ≠ .index → 2 ≤ raw.length →
+      ((∃ tbl, rawContrastPy r sels1 sels2 pc x span labs = .ok tbl) ↔
+        ∃ c, c ≠ PyClass.none ∧ ∀ e ∈ raw, pyClass (labOf labs e.1) = c)) ∧
+    (∀ tbl, rawContrastPy r sels1 sels2 pc x span labs = .ok tbl → ∀ q ∈ tbl, q ∈ raw) :=
+  rawContrastPy_sorted' r sels1 sels2 pc x span labs raw hraw
+
+/-- the hypotheses are satisfiable and both outcomes occur: two labels of one class are sorted (descending input reversed),
+a number next to a string raises -/
+example : ((orderRawPy [((([1] : Key), ([1] : Key)), .num 5), (([2], [2]), .num 3)] [(([1], [1]), [(1, 2)]), (([2], [2]), [(0, 1)])]).toOption.map
+      (fun t => t.map (·.1))) = some [(([2] : Key), ([2] : Key)), ([1], [1])] ∧
+    (match orderRawPy [((([1] : Key), ([1] : Key)), .num 5), (([2], [1]), .str [51, 45, 53])] [(([1], [1]), [(1, 2)]), (([2], [1]), [(0, 1)])] with
+      | .error .typeError => true | _ => false) = true := by decide +kernel
+
+/-- `errEveryOf` models `int(n*0.05)` as `n / 20`.  On binary64 this is NOT true for every `n < 2^53`: the exact set where it
+differs is `{n | 3·2^51 ≤ n ∧ n % 20 = 19}` (there `int(n*0.05) = n/20 + 1`; found by analysis: `0.05` is `1/20 + 1/(5·2^56)`, the
+product `k + 19/20 + n/(5·2^56)` reaches the rounding midpoint `k + 31/32` exactly at `n = 3·2^51`; confirmed on 4·10^5 sampled `n`).
+Kernel-checked witnesses on the real binary64: the first differing `n = 3·2^51 + 15` gives `n/20 + 1`, its neighbours
+(`n - 20`, `n - 1`) agree with `n/20`.  The general statement for `n < 3·2^51` under a round-to-nearest law is open (notes). -/
+theorem int_mul_005_boundary_counterexample : ((6755399441055759 : Float) * 0.05 == 337769972052788) = true ∧
+    ((6755399441055739 : Float) * 0.05 < 337769972052787) = true ∧
+    ((6755399441055739 : Float) * 0.05 ≥ 337769972052786) = true ∧
+    ((6755399441055758 : Float) * 0.05 < 337769972052788) = true ∧
+    (6755399441055759 / 20 = 337769972052787) ∧ (6755399441055739 / 20 = 337769972052786) ∧
+    6755399441055744 = 3 * 2 ^ 51 :=
+  int_mul_005_boundary'
+
+/-- **`int(n*0.05) = n // 20` for every `n < 3·2^51`**, for every rounding function obeying the round-to-nearest law
+(`FloatLaw`: never crosses a representable value; not farther above `x` than a representable value below `x` is below it —
+no tie rule needed): the rounded product `fl(n · 0.05)` (with `0.05` the binary64 `3602879701896397/2^56`) lies in
+`[n/20, n/20 + 1)`, so its truncation is `n/20` — what `errEveryOf` uses.  The bound is sharp:
+`int_mul_005_boundary_counterexample` (first differing `n = 3·2^51 + 15`, on the kernel's binary64). -/
+theorem int_mul_005_eq_div20 (fl : Rat → Rat) (h : FloatLaw fl) (n : Nat) (hn : n < int005Bound) :
+    (((n / 20 : Nat) : Rat) ≤ fl ((n : Rat) * c05)) ∧ fl ((n : Rat) * c05) < ((n / 20 : Nat) : Rat) + 1 :=
+  int_mul_005_eq_div20' fl h n hn
+
+/-- the same as a statement about `floor` (`int()` of a non-negative float) -/
+theorem int_mul_005_floor (fl : Rat → Rat) (h : FloatLaw fl) (n : Nat) (hn : n < int005Bound) :
+    ⌊fl ((n : Rat) * c05)⌋ = ((n / 20 : Nat) : Int) :=
+  int_mul_005_floor' fl h n hn
+
+/-- the law is satisfiable (exact arithmetic obeys it; binary64's round-to-nearest does by definition of "nearest") and the
+bound is the literal `3·2^51`; the default `errevery` of the model is `max (n/20) 1` -/
+example : FloatLaw (fun x => x) ∧ int005Bound = 3 * 2 ^ 51 ∧ (19 : Nat) < int005Bound := ⟨floatLaw_id, by decide, by decide⟩
+
+theorem errevery_default_eq (n : Nat) : errEveryDefault n = max (n / 20) 1 :=
+  errEveryDefault_eq n
+
+/-- translator obligation: the defaults of `where_fin`/`filter_fin`/`where_best`/`filter_best`/`raw_learners`/`raw_contrast`/
+`plot_learners`/`plot_contrast` (n, l, p, x, y, span, full_l, full_p, mode, err, errevery) in the CURRENT source are the ones
+model and harness assume ("by default environments", "by default every learner") -/
+theorem analysis_defaults_match : Coba.Generated.C18.analysisDefaults = analysisDefaultsM :=
+  analysis_defaults_match'
+
+/-- translator obligation: `_confidence` maps `err` strings to interval classes as assumed (order included), and its
+strings are the accepted `err` names of the model -/
+theorem confidence_dispatch_match : Coba.Generated.C18.confDispatch = confDispatchM ∧
+    Coba.Generated.C18.confDispatch.map (·.1) = errNamesM :=
+  confidence_dispatch_match'
+
 end Coba.C18
